@@ -388,6 +388,43 @@ def call_builtin(ex, st, name, args, kwargs, node):
         return streams.tobytes(ex, st, args[0])
     if name in ("Path", "pathlib.Path", "str") and args and isinstance(args[0], VStr):
         return args[0]
+    if name == "open" and len(args) >= 2 and isinstance(args[1], VStr) and args[1].lit == "r+b" and isinstance(args[0], VStr):
+        from . import streams
+        ex.lib_used.add("open(path, 'r+b') kept in a field: the buffered file object of the on-disk filter")
+        return streams.open_rw(ex, st, args[0])
+    if name in ("copyfile", "shutil.copyfile"):
+        from . import streams
+        src, dst = args[0], args[1]
+        owner = st.env.get("self")
+        if not (isinstance(src, VStr) and isinstance(dst, VStr) and isinstance(owner, VRef)):
+            raise Unsupported("copyfile shape")
+        obj = ex.deref(st, owner)
+        if "_filepath" not in obj.fields or "_bloom" not in obj.fields:
+            raise Unsupported("copyfile outside the on-disk filter")
+        ex.lib_used.add("shutil.copyfile(src, dst) with src the mapped file of the filter: dst receives the mapped bytes "
+                        "(MAP_SHARED: the mapping is the file's content)")
+        ex.oblige(st, f"L{line}.copy_source_is_the_filters_file", src.t == obj.fields["_filepath"].t)
+        streams.fs_store(ex, st, dst, obj.fields["_bloom"])
+        return VNone()
+    if name in ("mmap", "mmap.mmap") and args and isinstance(args[0], VOpaque) and args[0].desc == "fileno":
+        from . import streams
+        path = getattr(args[0], "path", None)
+        if path is None:
+            raise Unsupported("mmap of an unknown file")
+        ex.lib_used.add("mmap.mmap(fileno, 0): MAP_SHARED mapping of the whole file - element reads/writes are reads/writes "
+                        "of the file's bytes")
+        c = streams.fs_load(ex, st, path)
+        return VSeq(c.comps, c.ln, c.et, "mmap")
+    if name == "resolve":
+        from . import streams
+        return VStr(streams.rpath(args[0].t))
+    if name in ("file_bytes", "file_exists"):
+        from . import streams
+        d, l, e = streams.fs_state(st)
+        pth = args[0].t
+        if name == "file_exists":
+            return VBool(e[pth])
+        return VSeq([d[pth]], l[pth], TInt(0, 255), "bytes")
     if name in ("i32_at", "i64_at"):
         from . import streams
         w = 4 if name == "i32_at" else 8
@@ -653,7 +690,7 @@ def exec_with(ex, s, st):
 
 
 REAL_BUILTINS = {"f32", "ln", "exp_", "log2_", "pow_", "ceil_", "le_bytes", "be_bytes", "upd", "rem", "allkeys",
-                 "tcount", "tsize", "lcount", "nodup", "same", "undone_table", "undone_hand", "written", "f32_at", "byte_of", "f32_byte", "i32_at", "i64_at", "default_mode", "mode_of"}
+                 "tcount", "tsize", "lcount", "nodup", "same", "undone_table", "undone_hand", "written", "f32_at", "byte_of", "f32_byte", "i32_at", "i64_at", "default_mode", "mode_of", "file_bytes", "file_exists", "resolve"}
 
 
 def call_spec(ex, st, name, args, kwargs):
